@@ -76,6 +76,24 @@ def descendants(nt, name, in_directive):
     return out
 
 
+def _ws_variants(pat):
+    """the WhiteSpace variants a pattern selects (None if it is not a pattern over WhiteSpace variants)"""
+    k = pat.get('k')
+    if k == 'ts' and pat['p'].startswith('WhiteSpace::'):
+        return {pat['p'].split('::')[-1]}
+    if k == 'or':
+        out = set()
+        for x in pat['e']:
+            v = _ws_variants(x)
+            if v is None:
+                return None
+            out |= v
+        return out
+    if k in ('ref', 'paren'):
+        return _ws_variants(pat['p']) if isinstance(pat.get('p'), dict) else None
+    return None
+
+
 def run(ctx):
     pp = model(ctx)
     nt = ctx.types
@@ -235,6 +253,52 @@ def run(ctx):
         r.inst('a:%s' % a.key, {'arm': a.key, 'node_type': T, 'mode': mode, 'descendant_kinds_with_emitting_arms': sorted(k for k in desc if k in emitting_kinds)})
         if problem:
             r.fail('%s:%s:double-emission' % (CRATE, a.key), pp.where(a.line), '%s: %s' % (a.key, problem), {'arm': a.key, 'type': T})
+    # ---- (a2) which blanks the WhiteSpace arm copies.  Under premise 1 a blank inside a directive is WhiteSpace::Space; every other
+    # variant occurs only outside directives, where a WhiteSpace node is the trailing trivia of a token whose own arm copies the whole
+    # node (string literal, escaped identifier) or of plain text — so copying it in the WhiteSpace arm as well emits it a second time.
+    for (ev, key), f in sorted(feats.items()):
+        a = f['arm']
+        if ev != 'Enter' or a.kind != 'WhiteSpace' or a.sub:
+            continue
+        emitted = set()
+        unknown = []
+
+        def scan(node, variants):
+            if isinstance(node, dict):
+                k_ = node.get('k')
+                if k_ == 'mcall' and node['m'] in ('push', 'merge') and sx.is_path(node['recv'], pp.out_var):
+                    if variants is None:
+                        unknown.append(node)
+                    else:
+                        emitted.update(variants)
+                if k_ == 'if' and node['c'].get('k') == 'let' and sx.is_path(sx.strip_ref(node['c']['e']), a.var):
+                    vs = _ws_variants(node['c']['pat'])
+                    scan(node['t'], vs if vs is not None else variants)
+                    if 'e' in node:
+                        scan(node['e'], variants)
+                    return
+                if k_ == 'match' and sx.is_path(sx.strip_ref(node['e']), a.var):
+                    for arm_ in node['arms']:
+                        vs = _ws_variants(arm_['pat'])
+                        scan(arm_['body'], vs if vs is not None else variants)
+                    return
+                for v_ in node.values():
+                    if isinstance(v_, (dict, list)):
+                        scan(v_, variants)
+            elif isinstance(node, list):
+                for x_ in node:
+                    scan(x_, variants)
+        scan(a.body, None)
+        r.inst('a2:whitespace-variants', {'copied_variants': sorted(emitted), 'unrestricted_pushes': len(unknown)})
+        if unknown:
+            emitted.update(v for v, _ in nt.enums.get('WhiteSpace', {}).get('variants', []))
+        for v in sorted(emitted - {'Space'}):
+            if v in ('Comment', 'CompilerDirective') and v not in emitting_kinds:
+                continue
+            r.fail('%s:%s:copies-variant:%s' % (CRATE, a.key, v), pp.where(a.line),
+                   'the WhiteSpace arm copies WhiteSpace::%s nodes: inside a directive blanks are always WhiteSpace::Space, so such a node only occurs outside directives, as the '
+                   'trailing trivia of a token whose own arm has already copied it (string literal, escaped identifier): the blanks — e.g. the line break after a string — appear '
+                   'twice in the output and every later origin is shifted' % v)
     # partial emitters inside a self-skipped node (TextMacroUsage trailing blanks) are emitted by the arm itself: once
     # ---- (b) at least once: every SourceDescription / CompilerDirective kind has a handler
     handled = set()
